@@ -239,6 +239,7 @@ type stream struct {
 	sent    int64     // bytes accepted from the writer
 	finSent bool
 	rstSent bool
+	rstAt   time.Time // the instant the RST reaches the reading end
 	stalled bool
 	off     int // unique offset of this stream (ns)
 }
@@ -360,11 +361,18 @@ func (e *endpoint) Write(b []byte) (int, error) {
 	}
 	c, n := e.c, e.c.n
 	q := e.out
-	inReset := e.in.isReset() // (never two stream locks at once: the peer's Write takes them in the other order)
+	inReset, inAt := e.in.isReset() // (never two stream locks at once: the peer's Write takes them in the other order)
 	q.mu.Lock()
-	if q.rstSent || inReset {
+	if inReset && !time.Now().Before(inAt) {
 		q.mu.Unlock()
 		return 0, e.opErr("write", os.NewSyscallError("write", syscall.ECONNRESET))
+	}
+	if q.rstSent || inReset {
+		// the RST has not reached this end yet: as on a real socket the write succeeds and the bytes go nowhere.
+		// (Failing at once would let a writer learn of the reset a latency before its reader does; grpc's transparent
+		// retry then spins in real time on a transport whose reader waits for simulated time that cannot advance.)
+		q.mu.Unlock()
+		return len(b), nil
 	}
 	if q.finSent {
 		q.mu.Unlock()
@@ -459,10 +467,10 @@ func (e *endpoint) Write(b []byte) (int, error) {
 	return written, nil
 }
 
-func (s *stream) isReset() bool {
+func (s *stream) isReset() (bool, time.Time) {
 	s.mu.Lock()
 	defer s.mu.Unlock()
-	return s.rstSent
+	return s.rstSent, s.rstAt
 }
 
 // reset: both directions get an RST after the data already in flight.
@@ -484,7 +492,7 @@ func (c *Conn) reset() {
 			at = q.last
 		}
 		q.last = at
-		q.rstSent = true
+		q.rstSent, q.rstAt = true, at
 		q.segs = append(q.segs, segment{at: at, rst: true})
 		q.mu.Unlock()
 		q.signal()
